@@ -131,6 +131,15 @@ def gen_field(rng, N, d, pos, kind=None):
     return kind, v, None
 
 
+def other_unit(rng, v, p=0.25):
+    """the field in another unit (× 10^k) with probability p: PR and the phase quotient do not depend on it, alignment scales with its
+    square, divergence / curl / the transform linearly — an absolute guard in a denominator shows up here"""
+    if rng.random() >= p:
+        return v
+    k = rng.choice([-7, -5, 6])
+    return [[x if Fraction(x) == 0 else f"{x}e{k}" for x in row] for row in v]
+
+
 def gen_nb(rng, N, edge=False):
     nb = []
     for i in range(N):
@@ -151,6 +160,7 @@ def gen_pr(rng, edge=False):
     kind, v, A = gen_field(rng, N, d, pos)
     if edge:
         kind, v = "zero", [["0.000"] * d for _ in range(N)]
+    v = other_unit(rng, v)
     return {"op": "pr", "N": N, "d": d, "field": kind, "v": v, "scale": dec(rng, 0.2, 3, 2) if rng.random() < .8 else "-1.50"}
 
 
@@ -164,6 +174,7 @@ def gen_nbcase(rng, edge=False):
     order = list(range(N))
     if rng.random() < 0.3:
         rng.shuffle(order)
+    v = other_unit(rng, v)
     return {"op": "nb", "N": N, "d": d, "field": kind, "v": v, "nb": nb, "order": order, "edge": edge}
 
 
